@@ -47,15 +47,18 @@ def ixn(nm, x):
 
 
 def src(nm, s):
-    return "Src %s %s %s %s 0%%N" % (nm.ref(s["peer"]), nm.ref(s["name"]), act(s["act"]), coq_N(s["nperm"]))
+    return "Src %s %s %s %s %s" % (nm.ref(s["peer"]), nm.ref(s["name"]), act(s["act"]), coq_N(s["nperm"]),
+                                    coq_N(s.get("prec", 0)))
 
 
 def op(nm, o):
     if o["kind"] == "lset":
         return "LSet (%s)" % ixn(nm, o["ixn"])
     if o["kind"] == "entry":
-        return "CEnt (Entry %s %s)" % (nm.ref(o["name"]), coq_list([src(nm, s) for s in o.get("srcs") or []]))
-    return "CUps %s (%s)" % (nm.ref(o["name"]), src(nm, o["srcs"][0]))
+        return "CEnt (Entry %s %s)" % (nm.ref(o.get("name", "")), coq_list([src(nm, s) for s in o.get("srcs") or []]))
+    if o["kind"] == "sdest":
+        return "CDest %s" % nm.ref(o.get("name", ""))
+    return "CUps %s (%s)" % (nm.ref(o.get("name", "")), src(nm, o["srcs"][0]))
 
 
 def nlist(l):
@@ -63,7 +66,7 @@ def nlist(l):
 
 
 def case_to_coq(nm, c):
-    return "Case %s %s %s %s %s %s %s %s %s %s %s %s" % (
+    return "Case %s %s %s %s %s %s %s %s %s %s %s %s %s" % (
         coq_bool(c["legacy"]),
         coq_list([op(nm, o) for o in c["ops"]]),
         coq_list(["(%s, %s)" % (nm.ref(q[0]), nm.ref(q[1])) for q in c["qs"]]),
@@ -73,6 +76,7 @@ def case_to_coq(nm, c):
         coq_list([ixn(nm, x) for x in c["all"]]),
         coq_list([nlist(l) for l in c["msrc"]]),
         coq_list([nlist(l) for l in c["mdst"]]),
+        coq_list([nlist(l) for l in c["msrd"]]),
         nlist(c["r1"]), nlist(c["r2"]))
 
 
@@ -143,10 +147,10 @@ def classify(ctx, cases):
     new, known = [], collections.Counter()
     for c in cases:
         for f in c.get("fails") or []:
-            k = vlib.match_known(PROP, f["sig"])
+            k = vlib.match_known(PROP, f["sig"]) if f["sig"].get("cause") else None
             if k:
                 ctx.known(k, k["what"])
-                known[f["kind"]] += 1
+                known["%s [%s]" % (f["kind"], f["sig"]["cause"])] += 1
             else:
                 new.append((c, f))
     return new, known
@@ -168,11 +172,11 @@ def run(ctx):
         "CE build: partitions, sameness groups and non-default namespaces of config entries do not exist; the harness asserts the corresponding fields stay empty",
         "modelled, not verified: ACL filtering and blocking-query plumbing of the RPC endpoints (Intention.Match/Check, agent authorize) around the store calls; "
         "the discovery-chain protocol check that admits L7 intentions (a global proxy-defaults with protocol=http is written first); "
-        "gateway-service kinds (none registered); IntentionPermission contents beyond their count; Intention.Meta / ExternalSource; "
+        "catalog registrations (no instance of any destination is registered: GatewayServiceKind then depends only on service-defaults Destination blocks, which ARE modelled and generated; terminating-gateway services are not); IntentionPermission contents beyond their count; Intention.Meta / ExternalSource; "
         "legacy UUID syntax (generated IDs are valid lower-case UUIDs); non-ASCII names (strings.ToLower is modelled on ASCII)",
         "Go's sort.Sort / sort.SliceStable return a sorted permutation (any such permutation is the model's list because Less is strict on stored intentions)",
     ]
-    assumptions = ["names are ASCII", "no terminating/ingress gateway services registered", "CE (no namespaces/partitions)"]
+    assumptions = ["names are ASCII", "no service instances or terminating-gateway services registered in the catalog", "CE (no namespaces/partitions)"]
     if not ok:
         cov.update({"evaluations": 0, "distinct_nontrivial": 0, "rule": "proof stage failed", "samples": []})
         return ctx.finish(cov, assumptions)
@@ -182,7 +186,13 @@ def run(ctx):
     binp = vlib.go_build("intention")
     vlib.log("C13: harness built %.1fs" % (time.time() - t0))
     out = os.path.join(ctx.workdir, "cases.jsonl")
-    rc, o = vlib.sh([binp, "-seed", str(ctx.seed), "-tier", ctx.tier, "-out", out], timeout=3000)
+    # the sampled slice of the small scope and the random groups depend on the seed AND on the commit under
+    # test, so that successive runs on a moving tree do not look at the same 1/14 of the scope every time
+    rc_h, head = vlib.sh(["git", "-C", vlib.REPO, "rev-parse", "HEAD"])
+    salt = int(head.strip()[:8], 16) if rc_h == 0 and re.match(r"^[0-9a-f]{8}", head.strip()) else 0
+    if os.environ.get("VERIF_C13_SALT"):
+        salt = int(os.environ["VERIF_C13_SALT"])
+    rc, o = vlib.sh([binp, "-seed", str(ctx.seed), "-salt", str(salt), "-tier", ctx.tier, "-out", out], timeout=3000)
     if rc != 0:
         raise vlib.BuildError("harness run failed: " + o[-2000:])
     tab, cases = load(out)
@@ -196,7 +206,7 @@ def run(ctx):
     shards = [coq_cases[i:i + per] for i in range(0, len(coq_cases), per)]
     with ThreadPoolExecutor(max_workers=1) as ex:
         tab_future = ex.submit(run_tab, tab)
-        res = vlib.coq_run_shards(PROP, [shard_text(s) for s in shards], jobs=6)
+        res = vlib.coq_run_shards(PROP, [shard_text(s) for s in shards], jobs=4)
         tab_ok, tab_bad, tab_raw = tab_future.result()
     vlib.log("C13: tabulation lemmas %s %.1fs" % (tab_ok, time.time() - t0))
     mism, shard_fail, in_scope = [], [], 0
@@ -216,7 +226,7 @@ def run(ctx):
         # the correspondence broke but no generated case fails the property: search harder with the oracle only
         for extra_seed in (ctx.seed + 1000, ctx.seed + 2000):
             out2 = os.path.join(ctx.workdir, "search.jsonl")
-            rc, o = vlib.sh([binp, "-seed", str(extra_seed), "-tier", "thorough", "-coqmax", "1", "-out", out2], timeout=3000)
+            rc, o = vlib.sh([binp, "-seed", str(extra_seed), "-salt", str(salt), "-tier", "thorough", "-coqmax", "1", "-out", out2], timeout=3000)
             if rc != 0:
                 break
             _, more = load(out2)
@@ -227,7 +237,7 @@ def run(ctx):
 
     seen_kinds = set()
     for c, f in new_fail:
-        if f["kind"] in seen_kinds:
+        if f["kind"] in seen_kinds or len(seen_kinds) >= 6:
             continue
         seen_kinds.add(f["kind"])
         ctx.violation(replay_obj(c, f))
@@ -243,7 +253,7 @@ def run(ctx):
             ctx.violation({"kind": "correspondence", "theorem": "Run.C13.check (model observations = implementation observations)",
                            "mismatching_cases": len(mism), "oracle_only_cases_searched": searched,
                            "first": {k: c[k] for k in ("id", "gkind", "mode", "legacy", "ops", "qs", "peers", "dflt", "aperm",
-                                                      "wres", "wmsg", "all", "msrc", "mdst", "r1", "r2")},
+                                                      "wres", "wmsg", "all", "msrc", "mdst", "msrd", "r1", "r2")},
                            "replay": {"legacy": c["legacy"], "ops": c["ops"], "qs": c["qs"], "peers": c["peers"],
                                       "dflt": c["dflt"], "aperm": c["aperm"]},
                            "replay_cmd": "build/bin/intention -replay <this file>"}, found_input=False)
@@ -269,6 +279,7 @@ def run(ctx):
                 "every case (also those not sent to Coq) goes through the direct oracle under all four (default, allow-permissions) combinations",
         "traces_validated_against_impl": len(coq_cases),
         "model_mismatches": len(mism),
+        "sample_salt": salt,
         "cases_meeting_theorem_hypotheses": in_scope,
         "cases_meeting_theorem_hypotheses_rule": "evaluated in Coq by Run.C13.in_scope: final table/store satisfies legacy_okb/store_okb and no two stored or queried names differ only in case (hypotheses of C13_most_specific, C13_paths_agree, C13_sorted_*)",
         "tabulations": {"UpdatePrecedence rows": len(tab["prec"]), "computeIntentionPrecedence rows": len(tab["cprec"]),
@@ -285,6 +296,9 @@ def run(ctx):
         "stored_intentions_by_action": dict(acts),
         "stored_peered_intentions": peered,
         "exhaustive": ctx.tier == "thorough",
+        "oracle_clauses": ["not-sorted", "precedence-not-specificity", "src/dst-match-extra|missing", "dest-target-src-match-extra|missing",
+                           "ambiguous-most-specific", "decision-not-most-specific", "routes-disagree", "order-dependent",
+                           "stored-order-dependent", "representations-disagree (legacy table vs structs.MigrateIntentions image)"],
         "exhaustive_scope": "thorough: every set of <= 3 intentions with distinct (source, destination) over names {a,b,*} x {allow,deny,L7}, "
                             "in every order, in three representations (legacy table, IntentionMutation upsert, whole config entries); quick: every 14th set",
         "samples": [{"id": c["id"], "gkind": c["gkind"], "mode": c["mode"], "ops": c["ops"], "wres": c["wres"],
